@@ -195,7 +195,12 @@ Definition common_blockdim_u (blockdims : list ochunks) : guard ochunks :=
   else
     let non_trivial_dims := odedup (filter ontrivial blockdims) in
     match non_trivial_dims with
-    | [d] => Proceed d                       (* first(non_trivial_dims), nan or not *)
+    | [d] =>
+        (* dim = first(non_trivial_dims)
+           if np.isnan(sum(dim)) and any(d != dim for d in blockdims): raise ValueError
+           (a single-chunk operand cannot be aligned with blocks of unknown size) *)
+        if has_nan d && existsb (fun x => negb (ochunks_eqb x d)) blockdims then Refuse ValueError
+        else Proceed d
     | [] => omax_by_first blockdims
     | _ =>
         (* if np.isnan(sum(map(sum, blockdims))): raise ValueError *)
